@@ -686,10 +686,18 @@ func (pc *parentController) syncParentObject(parent *unstructured.Unstructured) 
 		if apierrors.IsNotFound(err) {
 			// Swallow the error since there's no point retrying if the parent is gone.
 			pc.logger.V(4).Info("Parent object has been deleted", "parent_kind", pc.parentResource.Kind, "object", klog.KRef(parent.GetNamespace(), parent.GetName()))
+			if manageErr != nil {
+				// The status update ended in a benign race, but reconciling children did not.
+				return manageErr
+			}
 			return nil
 		} else if apierrors.IsConflict(err) {
 			// it is possible that the object was modified after this sync was started, ignore conflict since we will reconcile again
 			pc.logger.V(4).Info("Parent ignoring update due to outdated resourceVersion", "parent_kind", pc.parentResource.Kind, "object", klog.KRef(parent.GetNamespace(), parent.GetName()))
+			if manageErr != nil {
+				// The status update ended in a benign race, but reconciling children did not.
+				return manageErr
+			}
 			return nil
 		}
 		return fmt.Errorf("can't update status for %v %v/%v: %w", pc.parentResource.Kind, parent.GetNamespace(), parent.GetName(), err)
